@@ -106,7 +106,7 @@ def compiles(cpp_text: str, name: str) -> str:
 	d = prelude.scratch()
 	src = os.path.join(d, f'c{os.getpid()}.cpp')
 	with open(src, 'w') as f:
-		f.write('#include <exception>\n#include <algorithm>\n#include <cstdlib>\n#include <vector>\n' + needed_text(cpp_text, [name]) + '\n')
+		f.write('#include <exception>\n#include <algorithm>\n#include <cstdlib>\n#include <vector>\n#include <tuple>\n' + needed_text(cpp_text, [name]) + '\n')
 	c = subprocess.run(['g++', '-std=c++20', '-fsyntax-only', '-w', src], capture_output=True, text=True)
 	return '' if c.returncode == 0 else c.stderr[-400:]
 
@@ -125,7 +125,7 @@ def run_cpp(cpp_text: str, calls: list) -> list:
 	if not calls:
 		return []
 	d = prelude.scratch()
-	main = ['#include <exception>', '#include <algorithm>', '#include <cstdlib>', '#include <vector>', '#include <iostream>', needed_text(cpp_text, [n for n, _ in calls]), 'int main(int argc, char** argv) {', '\tint which = std::atoi(argv[1]);']
+	main = ['#include <exception>', '#include <algorithm>', '#include <cstdlib>', '#include <vector>', '#include <tuple>', '#include <iostream>', needed_text(cpp_text, [n for n, _ in calls]), 'int main(int argc, char** argv) {', '\tint which = std::atoi(argv[1]);']
 	for k, (name, args) in enumerate(calls):
 		a = ', '.join(cpp_arg(x) for x in args)
 		main.append(f'\tif (which == {k}) {{ try {{ std::cout << (long long)({name}({a})) << "\\n"; }} catch (...) {{ std::cout << "EXC\\n"; }} }}')
@@ -181,7 +181,7 @@ def handle(entries: list) -> dict:
 		d = prelude.scratch()
 		whole = os.path.join(d, f'b{os.getpid()}.cpp')
 		with open(whole, 'w') as f:
-			f.write('#include <exception>\n#include <algorithm>\n#include <cstdlib>\n#include <vector>\n' + cpp_text)
+			f.write('#include <exception>\n#include <algorithm>\n#include <cstdlib>\n#include <vector>\n#include <tuple>\n' + cpp_text)
 		if subprocess.run(['g++', '-std=c++20', '-fsyntax-only', '-w', '-x', 'c++', whole], capture_output=True, text=True).returncode != 0:
 			for name, _, _ in entries:
 				diag = compiles(cpp_text, name)
